@@ -128,6 +128,12 @@ Theorem C20_param_image_shape_refuted :
   ~ param_sample_x f15_screen 3 == nth 3 (centers_x f15_screen) 0.
 Proof. exact param_image_shape_refuted. Qed.
 
+Theorem C20_param_peak_refuted :
+  reading_shape f15b_screen (Some (Params 0 0 0 0 1)) = reading_shape f15b_screen (Some (Particles [])) /\
+  pixel_of f15b_screen (mkP (21#16) 0 (-(11#16)) 0 1 1) = Some (5%nat, 6%nat) /\
+  param_peak f15b_screen (21#16) (-(11#16)) = (7%nat, 4%nat).
+Proof. exact param_peak_refuted. Qed.
+
 Theorem C20_param_samples_at_left_edges : forall s i, (0 < nbx s)%nat -> (0 < sbin s)%Z ->
   (sW s = sbin s * (sW s / sbin s))%Z ->
   param_sample_x s i == edge (xlo s) (xhi s) (nbx s) i.
@@ -161,5 +167,6 @@ Print Assumptions C20_bpm_passthrough.
 Print Assumptions C20_active_nonblocking_passthrough.
 Print Assumptions C20_blocking_kills.
 Print Assumptions C20_param_image_shape_refuted.
+Print Assumptions C20_param_peak_refuted.
 Print Assumptions C20_param_samples_at_left_edges.
 Print Assumptions C20_nonvacuous.
